@@ -102,7 +102,7 @@ class UInterp(mirsym.Interp):
             if op == 'store':
                 st.cnt[x] = args[1]
                 return cont(st, Opaque('unit'))
-        if n.endswith('atomic::fence'):
+        if n == 'fence' or n.endswith('::fence'):
             return cont(st, Opaque('unit'))
         if n.endswith('Atomic::new'):
             return cont(st, Struct('Atomic', [args[0]]))
